@@ -23,7 +23,7 @@ ASSUMPTIONS = ["libm cos/sin/sqrt/acos are accurate to a few ulp at the double a
                "theorems take trigonometric values as pairs (c,s) with c*c+s*s=1 and sqrt as a function sq with sq(y)*sq(y)=y for y>=0"]
 TRUSTED = ["mpmath 1.3 (320-bit cos/sin/sqrt/acos) as the reference for transcendental values in the C16 comparator"]
 
-K_ROT = 64      # absolute, entries are O(1)              (calibrated: max observed ~3 eps)
+K_ROT = 96      # absolute, entries are O(1)              (calibrated: max observed 6.4 eps over 5 seeds, x16)
 K_SPH = 64      # relative to r
 K_NORM = 16
 K_COMP = 256    # product of two computed rotations against a third
@@ -249,6 +249,8 @@ def generate(tier, seed, ctx):
         ph1 = rng.uniform(0, 2 * math.pi)
         ph2 = ph1 + rng.choice([-1.0, 1.0]) * rng.uniform(0.1, 3.0)
         ax, cl = rand_axis(rng, g)
+        if g % 5 < 2:      # exactly along -z / +z (the explicit branches), any length
+            ax = [0.0, 0.0, (-1.0 if g % 5 == 0 else 1.0) * 10.0 ** rng.uniform(-6, 6)]
         for j, ph in enumerate((ph1, ph2)):
             R.append("c16.sphax %s %s %s %s %s %s" % (hx(r), hx(th), hx(ph), cs_tokens(th), cs_tokens(ph), v3(ax)))
             groups.setdefault(("hand", g), {})[j] = R[-1]
